@@ -39,7 +39,19 @@ func (y CheckWhen) check(s *Selection, m meta.Meta) (bool, error) {
 			if err != nil {
 				return false, err
 			}
-			if proceed, err := s.XPredicate(xp); !proceed || err != nil {
+			ctx := s
+			if w.OfParent() && !meta.IsLeaf(m) {
+				// s is the container or list item itself, the condition is about the node
+				// that holds it. (for a leaf s is that node already)
+				ctx = s.parent
+				if ctx != nil && s.InsideList {
+					ctx = ctx.parent
+				}
+				if ctx == nil {
+					ctx = s
+				}
+			}
+			if proceed, err := ctx.XPredicate(xp); !proceed || err != nil {
 				return false, err
 			}
 		}
